@@ -72,6 +72,11 @@ TConst == /\ Ev.ev = "constprobe"
 
 (* C18: the regime (no_std, deny(missing_docs), forbid(unsafe_code)) must not matter for a valid declaration;
    the recorded expansion contains no `unsafe` token and no path rooted outside the allowed crates *)
+(* C19: a declaration with the `debug` option and a field that cannot be printed through a getter (write-only, no access,
+   array) does not compile -- it is not silently printed without that field; the printable controls compile *)
+TDebugVerdict == /\ Ev.ev = "dbgverdict"
+                 /\ D(Ev).debug /\ Valid(D(Ev))
+                 /\ Ev.accepted <=> DebugApplies(D(Ev))
 TRegime == /\ Ev.ev = "regime"
            /\ (Valid(D(Ev)) => Ev.compiles)
 AllowedRoots == {"core", "arbitrary_int", "Self", "self", "crate_local"}
@@ -81,7 +86,7 @@ TExpansion == /\ Ev.ev = "expansion"
 
 TInit == l = 1
 TNext == /\ l <= Len(Rec) /\ l' = l + 1
-         /\ (TVerdict \/ TGVerdict \/ TDefVerdict \/ TEnumVerdict \/ TNoRead \/ TProbe \/ TBuilder \/ TChain \/ TConst \/ TRegime \/ TExpansion)
+         /\ (TVerdict \/ TGVerdict \/ TDefVerdict \/ TEnumVerdict \/ TNoRead \/ TProbe \/ TBuilder \/ TChain \/ TConst \/ TRegime \/ TExpansion \/ TDebugVerdict)
 Accepted == IF TLCGet("stats").diameter - 1 = Len(Rec) THEN TRUE
             ELSE /\ PrintT(<<"REJECTED", TLCGet("stats").diameter, ToJson(Rec[TLCGet("stats").diameter]), "-">>)
                  /\ FALSE
